@@ -3164,8 +3164,8 @@ class _DiscontinuousPartitionBasis(Basis):
         super().__init__(len(unique_dofs), parent.nelems, parent.index, parent.coords)
 
     def f_dofs_coeffs(self, index):
-        dofs = evaluable.Take(self._dofs, evaluable.Range(evaluable.Take(self._ndofs, index)) + evaluable.Take(self._offsets, index))
-        _, coeffs = self._parent.f_dofs_coeffs(index)
+        parent_dofs, coeffs = self._parent.f_dofs_coeffs(index)
+        dofs = evaluable.Take(self._dofs, evaluable.Range(parent_dofs.shape[0]) + evaluable.Take(self._offsets, index))
         return dofs, coeffs
 
 
